@@ -402,11 +402,26 @@ func (g *Gen) try(k string) (Op, bool) {
 			return o, false
 		}
 		n2, _ := g.existingName(d)
-		switch g.rng.Intn(4) {
+		switch g.rng.Intn(5) {
 		case 0:
 			n2 = "."
 		case 1:
 			n2 = ".."
+		case 2, 3:
+			// onto a name that does not exist yet; if that were accepted the directory would contain itself,
+			// and moving that entry out again onto an existing name locks the directory twice
+			n2 = fmt.Sprintf("self%d", g.rng.Intn(100))
+			var other *gobj
+			for _, x := range g.live {
+				if x.kind == 2 && x != d && !g.isAncestor(d, x) && len(x.kids) > 0 {
+					other = x
+					break
+				}
+			}
+			if other != nil {
+				n3, _ := g.existingName(other)
+				g.enq(nil, Op{Proc: "rename", H: d.sym, Name: n2, H2: other.sym, Name2: n3}, Op{Proc: "getattr", H: d.sym})
+			}
 		}
 		o = Op{Proc: "rename", H: d.parent.sym, Name: d.name, H2: d.sym, Name2: n2}
 	case "hostile": // arbitrary argument values: the only question is whether the server survives
@@ -418,6 +433,43 @@ func (g *Gen) try(k string) (Op, bool) {
 		k := uint64(1 + g.rng.Intn(3))
 		o = Op{Proc: "setattr", H: g.filler.sym, HasSize: true, Size: (g.filler.size/4096 - k) * 4096}
 		g.pend = &pending{target: g.filler}
+	case "dirover": // inside a fresh directory: one sub-directory renamed over another, everything removed again, then the dead handle is used
+		d := g.pick(2)
+		pn := g.newName(d)
+		base := g.next // the id (and so the handle symbol) the mkdir below is going to get
+		ph := fmt.Sprintf("@%d", base)
+		o = Op{Proc: "mkdir", H: d.sym, Name: pn}
+		g.pend = &pending{parent: d}
+		g.enq(nil,
+			Op{Proc: "mkdir", H: ph, Name: "x"}, Op{Proc: "mkdir", H: ph, Name: "y"},
+			Op{Proc: "rename", H: ph, Name: "x", H2: ph, Name2: "y"},
+			Op{Proc: "rmdir", H: ph, Name: "y"},
+			Op{Proc: "rmdir", H: d.sym, Name: pn},
+			Op{Proc: "getattr", H: ph}, Op{Proc: "lookup", H: ph, Name: "x"}, Op{Proc: "create", H: ph, Name: "z"},
+			Op{Proc: "readdirplus", H: ph, Dircount: 1 << 20, Maxcount: 1 << 20})
+	case "maxwrite": // a WRITE of (nearly) the largest size the server announces, at an offset that needs index blocks too
+		f := g.pick(1)
+		if f == nil || g.wtmax < 8192 {
+			return o, false
+		}
+		n := g.wtmax - []uint64{0, 1, 16, 4095, 4096, 8192}[g.rng.Intn(6)]
+		off := []uint64{0, 100, 8 * 4096, 8*4096 - 100, (8+512)*4096 - 300*4096 + 7}[g.rng.Intn(5)]
+		big := Op{Proc: "write", H: f.sym, Off: off, Cnt: n, Stable: uint32(g.rng.Intn(3)), Data: DataSpec{Pat: true, Len: n, Seed: uint64(g.rng.Intn(250))}}
+		if g.unstableFile != nil && !g.unstableFile.dead {
+			o = big
+			g.pend = &pending{target: f}
+			g.enq(nil, Op{Proc: "commit", H: g.unstableFile.sym})
+		} else if g.p.Steer["unstablefirst"] {
+			// unstable data pending on one file, the large write (which the journal may refuse), then COMMIT
+			k := uint64(1 + g.rng.Intn(6000))
+			o = Op{Proc: "write", H: f.sym, Off: g.offset(f), Cnt: k, Stable: 0, Data: DataSpec{Pat: true, Len: k, Seed: uint64(g.rng.Intn(250))}}
+			g.pend = &pending{target: f}
+			g.enq(&pending{target: f}, big)
+			g.enq(nil, Op{Proc: "commit", H: f.sym})
+		} else {
+			o = big
+			g.pend = &pending{target: f}
+		}
 	case "hugesymlink": // a link target larger than one transaction can log: the commit itself must fail cleanly
 		d := g.pick(2)
 		n := uint64(512+g.rng.Intn(120)) * 4096
@@ -426,6 +478,10 @@ func (g *Gen) try(k string) (Op, bool) {
 		}
 		o = Op{Proc: "symlink", H: d.sym, Name: g.newName(d), Data: DataSpec{Pat: true, Len: n, Seed: uint64(g.rng.Intn(200))}}
 		g.pend = &pending{parent: d}
+		if g.unstableFile != nil && !g.unstableFile.dead {
+			// a request the journal refuses, then a COMMIT: the pending unstable data must still become durable
+			g.enq(nil, Op{Proc: "commit", H: g.unstableFile.sym})
+		}
 	case "oneleft": // bring the disk to exactly one or two free blocks, then write into an index range of a small file
 		if g.filler == nil || g.filler.dead || !g.fillDone || !g.haveFree || len(g.queue) > 0 {
 			return o, false
@@ -624,7 +680,7 @@ func (g *Gen) try(k string) (Op, bool) {
 		}
 		x := g.dead[g.rng.Intn(len(g.dead))]
 		procs := []string{"getattr", "setattr", "lookup", "access", "readlink", "read", "write", "create", "mkdir", "symlink",
-			"remove", "rmdir", "rename", "rename2", "readdir", "readdirplus", "commit"}
+			"remove", "rmdir", "rename", "rename2", "readdir", "readdirplus", "commit", "fsinfo", "pathconf"}
 		p := procs[g.rng.Intn(len(procs))]
 		d := g.pick(2)
 		n, _ := g.existingName(d)
